@@ -20,6 +20,8 @@ pub struct Input {
     pub name: String,
     pub src: String,
     pub mode: Mode,
+    /// compile with validate_layout_consistency(true)
+    pub validate: bool,
 }
 
 #[derive(Default)]
@@ -64,7 +66,10 @@ pub fn run_exec(input: &Input, cfg: Cfg, prefix: &[usize], expected: &[(usize, S
         s.points.push((n, site, a));
         a
     })));
-    let r = guard(|| compile1(&input.src, cfg, input.mode.clone()));
+    let r = guard(|| {
+        let files = [("main.rssl", input.src.as_str())];
+        Job { files: &files, entry: "main.rssl", defines: &[], cfg, mode: input.mode.clone(), validate_layout: input.validate }.run()
+    });
     vc::set_chooser(None);
     let s = st.borrow();
     if let Some(d) = &s.diverged {
@@ -154,7 +159,8 @@ impl<'a> Explorer<'a> {
 
 fn replay_text(input: &Input, cfg: Cfg, prefix: &[usize]) -> String {
     format!(
-        "kind: schedule\ncfg: {}\nmode: {}\nchoices: {}\nname: {}\n=====\n{}",
+        "kind: schedule\nvalidate: {}\ncfg: {}\nmode: {}\nchoices: {}\nname: {}\n=====\n{}",
+        input.validate,
         cfg.name(),
         match &input.mode {
             Mode::All => "all".to_string(),
@@ -172,7 +178,7 @@ fn replay_text(input: &Input, cfg: Cfg, prefix: &[usize]) -> String {
 
 pub fn inputs() -> Vec<Input> {
     let mut v = Vec::new();
-    let mut add = |name: &str, mode: Mode, src: &str| v.push(Input { name: name.to_string(), src: src.to_string(), mode });
+    let mut add = |name: &str, mode: Mode, src: &str| v.push(Input { name: name.to_string(), src: src.to_string(), mode, validate: name.starts_with("layout-") });
     add(
         "names-overloads-namespaces",
         Mode::NoPipeline,
@@ -334,6 +340,65 @@ void outs(in float a, out float b, inout float c) { b = a; c += a; }
 float callouts() { float p = 1.0; float q; float r = 2.0; outs(p, q, r); outs(q, p, r); return p + q + r; }
 "#,
     );
+    // user names that a backend must rename (reserved there) next to user names that look like generated ones
+    add(
+        "reserved-names-next-to-suffixed-names",
+        Mode::All,
+        r#"
+float main(float x) { return x + 1.0; }
+float main_0(float x) { return x + 2.0; }
+float and(float x) { return x + 3.0; }
+float and_0(float x) { return x + 4.0; }
+float kernel(float x) { return x + 5.0; }
+float kernel_0(float x) { return x + 6.0; }
+float kernel_1(float x) { return x + 7.0; }
+static float vertex = 1.0;
+static float vertex_0 = 2.0;
+struct fragment { float a; };
+struct fragment_0 { float a; };
+RWByteAddressBuffer g_output : register(u0);
+[numthreads(1, 1, 1)]
+void entry() {
+    fragment f; f.a = vertex; fragment_0 g; g.a = vertex_0;
+    g_output.Store(0, asuint(main(1.0) + main_0(1.0) + and(1.0) + and_0(1.0) + kernel(f.a) + kernel_0(g.a) + kernel_1(1.0)));
+}
+Pipeline Test { ComputeShader = entry; }
+"#,
+    );
+    // layout validation with several failing element types: the diagnostic must not depend on iteration order
+    add(
+        "layout-several-mismatching-types",
+        Mode::All,
+        r#"
+struct A { float3 v; float s; };
+struct B { float3 v; uint s; };
+struct C { half3 v; half s; };
+struct D { float2 a; float b; };
+struct E { D d; float c; };
+StructuredBuffer<A> g_a;
+RWStructuredBuffer<B> g_b;
+StructuredBuffer<C> g_c;
+StructuredBuffer<E> g_e;
+ByteAddressBuffer g_raw;
+[numthreads(1, 1, 1)]
+void entry() { g_b[0].v = g_a[0].v + (float3)g_c[0].v + g_raw.Load<A>(0).v + g_raw.Load<E>(0).d.b; g_e[0]; }
+Pipeline Test { ComputeShader = entry; }
+"#,
+    );
+    add(
+        "layout-all-consistent-types",
+        Mode::All,
+        r#"
+struct A { float4 v; float2 s; float2 t; };
+struct B { uint a; uint b; };
+StructuredBuffer<A> g_a;
+RWStructuredBuffer<B> g_b;
+ByteAddressBuffer g_raw;
+[numthreads(1, 1, 1)]
+void entry() { g_b[0].a = (uint)g_a[0].v.x + g_raw.Load<B>(0).b; }
+Pipeline Test { ComputeShader = entry; }
+"#,
+    );
     for (name, src) in [
         ("rejected-undefined-name", "static float a = 1.0;\nstatic float b = 2.0;\nfloat f() { return a + b + c; }\n"),
         ("rejected-ambiguous-overload", "float f(float a, int b) { return a; }\nfloat f(int a, float b) { return b; }\nfloat g() { return f(1, 1); }\n"),
@@ -351,7 +416,8 @@ float callouts() { float p = 1.0; float q; float r = 2.0; outs(p, q, r); outs(q,
         for p in files {
             if let Ok(src) = std::fs::read_to_string(&p) {
                 let name = format!("tests/basic/{}", p.file_name().unwrap().to_string_lossy());
-                v.push(Input { name, src, mode: Mode::All });
+                v.push(Input { name: name.clone(), src: src.clone(), mode: Mode::All, validate: false });
+                v.push(Input { name: format!("{}+layout-validation", name), src, mode: Mode::All, validate: true });
             }
         }
     }
@@ -471,7 +537,11 @@ pub fn replay(ctx: &Ctx, body: &str) -> i32 {
     let mut cfg = Cfg::Dx;
     let mut mode = Mode::NoPipeline;
     let mut choices = Vec::new();
+    let mut validate = false;
     for l in head.lines() {
+        if let Some(v) = l.strip_prefix("validate: ") {
+            validate = v.trim() == "true";
+        }
         if let Some(v) = l.strip_prefix("cfg: ") {
             cfg = Cfg::from_name(v.trim()).unwrap_or(Cfg::Dx);
         } else if let Some(v) = l.strip_prefix("mode: ") {
@@ -484,7 +554,7 @@ pub fn replay(ctx: &Ctx, body: &str) -> i32 {
             choices = v.split(',').filter_map(|c| c.trim().parse().ok()).collect();
         }
     }
-    let input = Input { name: "replay".into(), src: src.to_string(), mode };
+    let input = Input { name: "replay".into(), src: src.to_string(), mode, validate };
     let mut acc = Acc::default();
     let reference = run_exec(&input, cfg, &[], &[]);
     let a = run_exec(&input, cfg, &choices, &[]);
